@@ -60,7 +60,7 @@ const (
 	opRawOpen         = iota // Acc: account (mod nAcc+1, last = no proven identity); Flag&1: the other responsible node
 	opRawSub                 // S: stream, Sp, P: patterns
 	opRawUnsub               // S, Sp, P: patterns (none = all)
-	opRawPub                 // S, Sp, P[0]: topic; Acc: signer (-1 = the stream's account); Rel, TS, Rep, Forge; P[1]: substitute topic
+	opRawPub                 // S, Sp, P[0]: topic; Acc: signer (-1 = the stream's account); Rel, TS, Rep, Forge (1-7 tamper after signing, 8 forged twin first); P[1]: substitute topic
 	opRawClose               // S; Flag: 0 peer closes, 1 stream context cancelled
 	opCliSub                 // S: client, Sp, P[0]
 	opCliUnsub               // S: client, Flag: which subscription
@@ -296,8 +296,8 @@ func (w *world) tsFor(mode int) int64 {
 func (w *world) buildPublish(i int, l *link, op Op) *pubsubproto.Publish {
 	if op.Rep > 0 && len(w.pastPubs) > 0 {
 		f := clonePub(w.pastPubs[mod(op.Rep-1, len(w.pastPubs))])
-		f.Relayed = op.Rel
-		if mod(op.Forge, 8) == 6 {
+		f.Relayed = op.Rel != (l.kind == lkNodeIn)
+		if mod(op.Forge, 9) == 6 {
 			f.MsgId = w.newMsgId() // replay under a fresh id: the signature covers the id
 		}
 		return f
@@ -317,7 +317,7 @@ func (w *world) buildPublish(i int, l *link, op Op) *pubsubproto.Publish {
 		Payload:        []byte(fmt.Sprintf("m%d", i)),
 		TimestampMilli: w.tsFor(op.TS),
 	}
-	forge := mod(op.Forge, 8)
+	forge := mod(op.Forge, 9)
 	if forge == 4 {
 		f.TimestampMilli = w.tsFor(1)
 	}
@@ -343,6 +343,9 @@ func (w *world) buildPublish(i int, l *link, op Op) *pubsubproto.Publish {
 		f.SpaceId = goodSpace(mod(op.Sp, nGoodSpaces) + 1)
 	}
 	f.Relayed = op.Rel
+	if l.kind == lkNodeIn {
+		f.Relayed = !op.Rel // the other node mostly relays
+	}
 	return f
 }
 
@@ -389,7 +392,21 @@ func (w *world) apply(i int, op Op) error {
 		if l == nil {
 			return nil
 		}
-		if err := w.push(l, wrapPub(w.buildPublish(i, l, op))); err != nil {
+		f := w.buildPublish(i, l, op)
+		if op.Rep == 0 && mod(op.Forge, 9) == 8 {
+			// a forged twin (same id, broken signature) travels ahead of the genuine message
+			twin := clonePub(f)
+			twin.Signature[3] ^= 0x01
+			if err := w.push(l, wrapPub(twin)); err != nil {
+				return err
+			}
+			if err := w.settle(); err != nil {
+				return err
+			}
+			delete(w.seenIds, string(f.MsgId)) // the genuine one is not a replay
+			w.classes["publish-after-forged-twin"] = true
+		}
+		if err := w.push(l, wrapPub(f)); err != nil {
 			return err
 		}
 		return w.settle()
@@ -746,7 +763,7 @@ func (w *world) teardown() error {
 // finalCheck: nothing is registered any more — no bookkeeping, and publishes reach nobody.
 func (w *world) finalCheck() error {
 	if len(w.def) != 0 || len(w.may) != 0 {
-		return fmt.Errorf("HARNESS: reference table not empty after teardown: %v %v", w.def, w.may)
+		return fmt.Errorf("HARNESS: reference table not empty after teardown: %.300s", fmt.Sprint(w.def, w.may))
 	}
 	if err := w.checkCounters(); err != nil {
 		return err
@@ -874,6 +891,11 @@ func runSweep(c Case) (out vstat.Outcome, err error) {
 				return out, violation("Subscribe(%q) rejected a well-formed pattern: %v", p, err)
 			}
 			cl.subs = append(cl.subs, s)
+			if nPat%64 == 0 { // stay below the engine's bounded send queue
+				if err = w.settle(); err != nil {
+					return out, err
+				}
+			}
 		} else {
 			nBad++
 			if _, e := cl.svc.Subscribe(space, p, func(string, string, crypto.PubKey, []byte) {}); e == nil {
@@ -910,9 +932,14 @@ func runSweep(c Case) (out vstat.Outcome, err error) {
 		pairs += int64(len(pats))
 	}
 	// withdraw everything again and make sure nothing is left
-	for _, s := range cl.subs {
+	for i, s := range cl.subs {
 		s.alive = false
 		s.unsub()
+		if i%64 == 63 {
+			if err = w.settle(); err != nil {
+				return out, err
+			}
+		}
 	}
 	for _, l := range w.liveRaw() {
 		if l != pub {
